@@ -343,7 +343,11 @@ def find_octopus_base(
             )
             next_lcas.extend(res)
         lcas = next_lcas[:]
-    return lcas
+    # The union of the pairwise results can contain duplicates and commits that
+    # are ancestors of other members (git: reduce_heads()).
+    return _remove_redundant(
+        lookup_parents, lcas, lookup_stamp, parents_provider.shallows
+    )
 
 
 def can_fast_forward(repo: "BaseRepo", c1: ObjectID, c2: ObjectID) -> bool:
